@@ -57,6 +57,10 @@ RECURSIVE ToDecR(_)
 ToDecR(a) == IF a = <<>> THEN <<>> ELSE LET x == NDivS(a, 10) IN ToDecR(x.q) \o <<x.r>>
 NToDec(a) == IF a = <<>> THEN <<0>> ELSE ToDecR(a)                 \* most significant digit first
 
+RECURSIVE ToBaseR(_, _)
+ToBaseR(a, base) == IF a = <<>> THEN <<>> ELSE LET x == NDivS(a, base) IN ToBaseR(x.q, base) \o <<x.r>>
+NToBase(a, base) == IF a = <<>> THEN <<0>> ELSE ToBaseR(a, base)   \* digits, most significant first
+
 RECURSIVE FromBaseR(_, _, _, _)
 FromBaseR(ds, base, i, acc) == IF i > Len(ds) THEN acc
     ELSE FromBaseR(ds, base, i + 1, NAdd(NMulS(acc, base), IF ds[i] = 0 THEN <<>> ELSE <<ds[i]>>))
